@@ -334,6 +334,7 @@ func cmdRun(prop, tier, only string, verbose bool, workers int, solverBin string
 		solver.NSat += hr.Solver.NSat
 		solver.NUnsat += hr.Solver.NUnsat
 		solver.NUnknown += hr.Solver.NUnknown
+		solver.NLSat += hr.Solver.NLSat
 		solver.Time += hr.Solver.Time
 		for f := range hr.Funcs {
 			funcs[f] = true
@@ -404,7 +405,7 @@ func cmdRun(prop, tier, only string, verbose bool, workers int, solverBin string
 		"functions_encoded":     sortedSet(funcs),
 		"functions_encoded_n":   len(funcs),
 		"obligation_details":    oblEv,
-		"queries":               map[string]int{"total": solver.Queries, "unsat": solver.NUnsat, "sat": solver.NSat, "unknown": solver.NUnknown},
+		"queries":               map[string]int{"total": solver.Queries, "unsat": solver.NUnsat, "sat": solver.NSat, "unknown": solver.NUnknown, "decided_by_nlsat_tactic": solver.NLSat},
 		"solver_time_s":         solver.Time.Seconds(),
 		"explore_wall_s":        exploreTime.Seconds(),
 		"undischarged":          undischarged,
